@@ -137,7 +137,7 @@ func TestC14(t *testing.T) {
 		if large {
 			o.InitialMmapSize = 512 << 20
 		}
-		o.AllocSize = 64 << 10       // keep the file itself small (grow in small chunks)
+		o.AllocSize = 64 << 10 // keep the file itself small (grow in small chunks)
 		cfg.FixedOpts = &o
 		fail := func(v *drv.Violation) {
 			failCase(rt, replayDoc{Property: "C14", Kind: "history", Ops: e.Log}, v)
